@@ -860,6 +860,12 @@ func ruleNatsDiscard(c *Ctx) {
 			allowed[f] = n
 		}
 	}
+	setup := map[*ssa.Function]bool{}
+	if connect != nil {
+		for _, g := range p.withNewHelpers(connect) {
+			setup[TopLevel(g)] = true
+		}
+	}
 	// functions that discard the pending state themselves
 	discards := map[*ssa.Function]ssa.Instruction{}
 	var pkgFns []*ssa.Function
@@ -868,8 +874,8 @@ func ruleNatsDiscard(c *Ctx) {
 			continue
 		}
 		pkgFns = append(pkgFns, fn)
-		if TopLevel(fn) == connect {
-			continue
+		if setup[TopLevel(fn)] {
+			continue // Connect and the helpers extracted from it set the pending state up
 		}
 		for _, in := range instrsOf(fn) {
 			switch x := in.(type) {
@@ -3372,7 +3378,7 @@ func flipPoints(c *Ctx, table []flipRow, what, consequence string) {
 				if !isStatus(x) {
 					// in a helper extracted from the function the status is the integer parameter it was handed
 					prm, isP := stripConv(x).(*ssa.Parameter)
-					if !isP || g == fn || g.Parent() != nil {
+					if !isP || g == fn || g.Parent() != nil || row.status == "len(param)" {
 						continue
 					}
 					if bt, isB := prm.Type().Underlying().(*types.Basic); !isB || bt.Info()&types.IsInteger == 0 {
